@@ -282,3 +282,9 @@ Lemma codabar_example : codabar_language [65; 52; 48; 49; 53; 54; 66].
 Proof. apply codabar_representable_iff. reflexivity. Qed.
 Lemma codabar_example_not : ~ codabar_language [65; 66; 65].
 Proof. intros H. apply codabar_representable_iff in H. discriminate. Qed.
+
+Lemma cb_valid_language s : cb_valid s = true <->
+  exists a body b, s = a :: body ++ [b]
+    /\ In a codabar_start_stop /\ In b codabar_start_stop
+    /\ Forall (fun c => In c codabar_data_chars) body.
+Proof. rewrite cb_valid_representable. apply codabar_representable_iff. Qed.
